@@ -81,9 +81,12 @@ def run_impl(case):
             extra_a, extra_g = ['y'], []
         else:
             over = Shared({'key': key, 'who': 'over'})
+            extra_a, extra_g = ['y'], []
             if case['how'] != 'override_after_run':
                 over.merge_overrides({'a': {'y': {'_default': 10}}})
-            extra_a, extra_g = ['y'], []
+                # a second override for another variable of the same port adds to the first
+                over.merge_overrides({'a': {'z': {'_default': 20}}})
+                extra_a = ['y', 'z']
         plain = shared_plain if case['how'] == 'shared_params' else Shared({'key': key, 'who': 'plain'})
         procs = {'plain': plain, 'over': over} if case['order'] == 'plain-first' else {'over': over, 'plain': plain}
         # the two instances are wired to different nodes for port a
